@@ -41,5 +41,14 @@ Definition gmm_M (g : list (list T)) : gmm :=
      gvar := tabl K (fun k => tabl D (g_cov_diag P N tiny y (a k))) |}.
 
 Definition gmm_fit (n : nat) (g0 : list (list T)) : gmm := fit gmm_E gmm_M n g0.
+(* covariance_type='spherical': one pooled variance per class (GaussianTrainer._fit 'spherical'); SphericalGaussian.log_pdf is
+   the diagonal log-density with the D variances of a class equal (D * ln(1/sqrt v) = sum_d ln(1/sqrt v)), so the E-step is gmm_E
+   on a record whose variance rows are constant *)
+Definition gmm_M_sph (g : list (list T)) : gmm :=
+  let a := nth2T g in
+  {| gw := tabl K (weight_sal P K' N a (fun _ => o1 P) tinyw);
+     gmean := tabl K (fun k => tabl D (g_mean P N tiny y (a k)));
+     gvar := tabl K (fun k => let vk := g_cov_sph P D N tiny y (a k) in tabl D (fun _ => vk)) |}.
+Definition gmm_fit_sph (n : nat) (g0 : list (list T)) : gmm := fit gmm_E gmm_M_sph n g0.
 Definition gmm_predict (m : gmm) : list (list T) := gmm_E m.
 End GMM.
